@@ -240,7 +240,8 @@ class SArr:
 
     def __iter__(self):
         if self.ndim == 1:
-            return iter(self.items)
+            dt = self.dtype
+            return iter([_scalar(x, dt) for x in self.items])
         ncol = self.shape[1]
         return iter([SArr(self.items[i * ncol:(i + 1) * ncol], self.dtype) for i in range(self.shape[0])])
 
@@ -315,7 +316,7 @@ class SArr:
             raise AttributeError(name)
         if self.concrete():
             return getattr(self.to_real(), name)
-        raise Inconclusive(f"ndarray.{name} on a symbolic array is not modelled")
+        raise AttributeError(f"ndarray.{name} on a symbolic array is not modelled (shim)")
 
     def to_real(self):
         return _wrap(_np.array(self.items, dtype=self.dtype).reshape(self.shape))
@@ -528,7 +529,7 @@ class SArr:
             if n and bool((k < 0) & (k >= -n)):
                 return _sel(self.items, k + n)
             raise IndexError("index out of bounds")
-        return self.items[k]
+        return _scalar(self.items[k], self.dtype)
 
     def _getitem2(self, k):
         r, c = self.shape
@@ -558,7 +559,7 @@ class SArr:
         ci, cs = pick(b, cols)
         its = [self.items[i * c + j] for i in ri for j in ci]
         if rs and cs:
-            return its[0]
+            return _scalar(its[0], self.dtype)
         if rs or cs:
             return SArr(its, self.dtype)
         return SArr(its, self.dtype, (len(ri), len(ci)))
@@ -664,6 +665,16 @@ class SArr:
         for i in ri:
             for j in ci:
                 self._items[i * c + j] = next(it)
+
+
+def _scalar(x, dt):
+    """element as numpy would hand it out: numpy scalar when concrete, proxy when symbolic"""
+    if is_sym(x) or dt.kind not in "iufb":
+        return x
+    try:
+        return dt.type(x)
+    except (OverflowError, ValueError):
+        return x
 
 
 def _mk_eq(a, b):
